@@ -3,6 +3,7 @@ CONSTANTS
   Budget = 7
   Enabled = {"Name", "SimpleStmt", "If", "While", "For", "With", "Try", "Module"}
   NameSet = {"a", "b"}
+  ExtraParens = FALSE
   Emit = TRUE
 SPECIFICATION Spec
 INVARIANTS EmitOK
